@@ -222,7 +222,7 @@ class C01(Check):
             self._judge(ctx, spec, cap, batch, failures, broken)
             if len(ctx.samples) < 4 and cap["res"] is not None:
                 ctx.sample({"nodes": len(spec["nodes"]), "links": [(l["name"], C.link_kind(l), l["start"], l["end"]) for l in spec["links"]][:8],
-                            "options": spec["options"], "reported_steps": len(cap["frames"])})
+                            "edits": spec.get("edits", []), "options": spec["options"], "reported_steps": len(cap["frames"])})
         batch.run()
         # smallest replay first
         failures.sort(key=lambda f: len(json.dumps(f.replay, default=str)))
@@ -239,7 +239,7 @@ class C01(Check):
         broken += C.zoo_agreement(ctx, wntr, "C01DD", self.info["DD"]["names"], "DD", "default", npts, lambda mbc, lc: mbc)
         broken += C.zoo_agreement(ctx, wntr, "C01PDD", self.info["PDD"]["names"], "PDD", "default", npts, lambda mbc, lc: mbc)
         corpus = [c["spec"] for _, c in vlib.corpus_items(self.pid) if "spec" in c]
-        specs = corpus + C.gen_specs(ctx, 34 if ctx.quick else 400, 9 if ctx.quick else 54)
+        specs = corpus + C.reversal_specs(ctx, 10 if ctx.quick else 80) + C.gen_specs(ctx, 30 if ctx.quick else 400, 9 if ctx.quick else 54)
         broken += self._static_rows(ctx, wntr, specs[: (24 if ctx.quick else 200)])
         f, b = self._run_specs(ctx, wntr, specs)
         failures += f
@@ -253,7 +253,7 @@ class C01(Check):
         wntr = vlib.import_wntr()
         self.max_res = 0.0
         corpus = [c["spec"] for _, c in vlib.corpus_items(self.pid) if "spec" in c]
-        f, b = self._run_specs(ctx, wntr, corpus + C.gen_specs(ctx, 80, 18))
+        f, b = self._run_specs(ctx, wntr, corpus + C.reversal_specs(ctx, 30) + C.gen_specs(ctx, 80, 18))
         return f
 
     def replay(self, ctx, path):
